@@ -4,6 +4,7 @@ from mir import op_place, place_str
 import pool2
 
 META = {
+    "thorough_extra": ["server-only", "tls"],
     "level": "other",
     "explanation": "Structure of the shutdown mechanism, decided on all paths: (C07.1) in GracefulShutdown::poll every accept step is separated from loop entry and from the "
                    "previous accept step by the Pending edge of signal.poll(cx); (C07.2) on the signal's Ready edge shutdown.send() is passed on every path, no accept step or "
